@@ -43,6 +43,15 @@ fn random_case(rng: &mut Rng, s: &str) -> String {
     s.chars().map(|c| if rng.chance(1, 2) { c.to_ascii_uppercase() } else { c }).collect()
 }
 
+/// Sunday as 7 — sometimes zero-padded
+fn seven(rng: &mut Rng) -> String {
+    match rng.below(8) {
+        0 => "07".to_string(),
+        1 => "007".to_string(),
+        _ => "7".to_string(),
+    }
+}
+
 fn value_text(rng: &mut Rng, v: u32, field: usize) -> String {
     match field {
         3 if rng.chance(1, 2) => random_case(rng, MONTH_NAMES[v as usize - 1]),
@@ -74,13 +83,13 @@ pub fn gen_field(rng: &mut Rng, field: usize) -> String {
                 let a = min + rng.below((max - min + 1) as u64) as u32;
                 let b = a + rng.below((max - a + 1) as u64) as u32;
                 // a name for the start only when it denotes the same number (7 has no name distinct from 0)
-                let at = if field == 4 && a == 7 { "7".to_string() } else { value_text(rng, a, field) };
-                let bt = if field == 4 && b == 7 { "7".to_string() } else if field == 4 && b == 0 && a == 0 { value_text(rng, 0, field) } else { value_text(rng, b, field) };
+                let at = if field == 4 && a == 7 { seven(rng) } else { value_text(rng, a, field) };
+                let bt = if field == 4 && b == 7 { seven(rng) } else if field == 4 && b == 0 && a == 0 { value_text(rng, 0, field) } else { value_text(rng, b, field) };
                 format!("{}-{}", at, bt)
             }
             _ => {
                 let v = min + rng.below((max - min + 1) as u64) as u32;
-                if field == 4 && v == 7 { "7".to_string() } else { value_text(rng, v, field) }
+                if field == 4 && v == 7 { seven(rng) } else { value_text(rng, v, field) }
             }
         };
         items.push(it);
